@@ -1,5 +1,5 @@
 # replay of a bounded stand-in violation (C13): re-run native/c13_tdm.py
 import sys
-print("calls ('roll', 'space1', 'unroll1'): the program no longer runs: IndexError: list index out of range")
+print('space-unrolled single-band program (N=2, 4 time bins) WITH a measurement cannot be run: IndexError: list index out of range')
 print('REPLAY-VIOLATION')
 sys.exit(1)
